@@ -13,7 +13,11 @@ Inductive case :=
 | StackCase (limit d cls reached depth : Z) (repeat_same : bool)
 (* a non-terminating program interrupted once from another goroutine: Run must unwind with
    the host's panic promptly and leave the runtime at rest and usable *)
-| LCase (id : Z) (stopped as_panic rest_ok : bool).
+| LCase (id : Z) (stopped as_panic rest_ok : bool)
+(* an abnormal exit (throw, ReferenceError, TypeError, stack-limit RangeError) crossing `with` statements and
+   try/finally blocks, handled in the same activation or in a caller: what the script then sees of its scope
+   chain is given by the reference semantics C01/Full.v (the term has `throw` where the text raises the exit) *)
+| WCase (p : list Full.stmt) (obs_log : list Full.val) (followup : bool).
 
 (* polls the wrapper spends before the body's block and after it.
    global mode: the `var` statement plays the role of the block's own poll.
@@ -41,6 +45,12 @@ Definition halt_out (o : outcome) : bool := match o with OThrew VHalt => true | 
 Definition verdict (c : case) : Z * Z :=
   match c with
   | LCase _ stopped aspanic rest => if stopped && aspanic && rest then (0, 0) else (3, 6)
+  | WCase p lg followup =>
+      let '(ml, mo) := Full.run_program ffuel p in
+      match mo with
+      | FNormal => if negb followup then (3, 7) else if list_eqb fval_eqb lg ml then (0, 0) else (3, 11)
+      | _ => declined
+      end
   | StackCase limit d cls reached depth same =>
       (* d nested calls from the global scope *)
       let expect := match chain limit 0 (Z.to_nat d) with None => 3 | Some _ => 0 end in
